@@ -50,8 +50,9 @@ def observe(binp, cases):
     if have:
         for r, o in zip(have, C.run_model("simplefrag", [r["sx"] for r in have])):
             x = C.parse_sx(o)
-            if len(x) == 2:
-                frag[r["id"]] = (x[0] == 1, x[1] == 1)
+            if len(x) >= 2:
+                # (inside the proved class, verdict of the reading, inside through the typed-value theorem only)
+                frag[r["id"]] = (x[0] == 1, x[1] == 1, len(x) > 2 and x[2] == 1)
     out = []
     for c, r in zip(cases, recs):
         out.append({"case": c, "skip": r.get("skip"), "go": go_view(r["go"]) if "go" in r else None,
